@@ -251,6 +251,8 @@ def exp_geometry(geo):
       else:
         pos = 100 - Fraction(100 * (-val), rows)
       anchor = ({"start": "top", "center": "middle", "end": "bottom"}[la], pos)
+      if kind != "pct" and abs(val) > rows:
+        anchor = None      # a line number beyond the grid: only 'inside the root container, non-negative extent' is demanded
     else:
       anchor = None
   return {"vertical": vertical, "displayalign": da, "textalign": ta, "anchor": anchor}
@@ -896,6 +898,19 @@ def _settings_str(vals, order=0):
   return "".join(f" {n}:{v}" for n, v in items)
 
 
+LINE_RANGE = [v + a for v in ("22", "23", "24", "30", "-23", "-24", "-30", "39", "40", "41", "45", "-40", "-41", "-45", "1000", "-1000") for a in ("", ",center", ",end")]
+
+
+def fam_line_range():
+  prod = Product([VERTICAL, LINE_RANGE, [None, "50%"]])
+
+  def make(i):
+    v, ln, sz = prod.decode(i)
+    s_a = _settings_str((v, ln, None, sz, None))
+    return "WEBVTT\n\n00:01.000 --> 00:02.000" + s_a + "\nfirst\n\n00:03.000 --> 00:04.000 line:1\nsecond\n"
+  return _file_family("F-line-range", prod.n, make, "line numbers at and beyond the 23-row / 40-column grid, both signs x line alignment x vertical x size")
+
+
 def fam_settings():
   def make(i):
     vals = SETTINGS.decode(i)
@@ -1116,7 +1131,7 @@ def gates():
   v = sp.parse_vtt("WEBVTT\n\n00:00:00.000 --> 00:00:05.000\n<ruby>.<rt>א<c>א</c></rt>ab)<rt>x</rt></ruby>\n")
   need("".join(x[0] for x in expected_chars(v.cues[0])) == "." + "ab)" + "אא" + "x", "test_ruby")
   # generators produce what they claim
-  for fam in (fam_times(), fam_tags(1), fam_tags(2), fam_tags(3), fam_crefs(), fam_settings(), fam_layout(), fam_timestamps()):
+  for fam in (fam_times(), fam_tags(1), fam_tags(2), fam_tags(3), fam_crefs(), fam_settings(), fam_line_range(), fam_layout(), fam_timestamps()):
     for i in sorted({0, 1, fam.n // 3, fam.n // 2, fam.n - 1}):
       n += 1
       try:
@@ -1147,6 +1162,7 @@ def plan(tier, seed):
     fam_tags(1), fam_tags(2), fam_tags(3), fam_ruby(), fam_crefs(), fam_annotations(), fam_identifiers(), fam_timestamps(),
     fam_tagtokens(4 if tier == "quick" else 5),
     fam_settings(),
+    fam_line_range(),
     fam_layout(),
     fam_roundtrip(),
   ]
